@@ -78,9 +78,11 @@ fn outcome_sig(xs: &mut Xstate, ignore_words: &[String]) -> String {
         vars.join(","), xs.stdout().map(|s| s.clone()).unwrap_or_default(), words.join(" "))
 }
 
-/// (before, after, the hole is directly inside another meta block: results stay on its stack in evaluation order)
+/// (before, after, the hole is directly inside another meta block: results stay on its stack in evaluation order).
+/// The results never become map *keys*: keys of different types are C12's known finding (`Ord for Cell` is not
+/// lawful, so what a map with such keys looks like is outside the model), not C11's subject.
 const CONTEXTS: &[(&str, &str, bool)] = &[
-    ("", "", false), ("1 2", "+", false), ("[ 1", "2 ]", false), ("{ 1", "}", false), (": w1", "; w1", false), (": w2 local a", "a ; 5 w2", false),
+    ("", "", false), ("1 2", "+", false), ("[ 1", "2 ]", false), ("{ 1 [", "] }", false), (": w1", "; w1", false), (": w2 local a", "a ; 5 w2", false),
     ("#(", "1 #)", true), ("#( [", "] #)", false), ("true if", "then", false), ("false if 9 else", "then", false), ("3 0 do", "loop", false),
     (": w3 #(", "#) ; w3", true), ("10 var gv gv", "gv", false), ("#( #(", "#) #)", true), ("begin", "true until", false), ("7 var gq", "! gq gq", false),
     ("#( : mf9", "; mf9 #)", false), ("#( true if", "then #)", false), ("#( false if", "then 6 #)", false), ("#( 2 0 do", "loop #)", false), ("#( [ 1", "] #)", false), ("[ #(", "#) ]", true),
